@@ -278,18 +278,27 @@ def apply_prop_filter(el, ab):
     except KeyError:
         return False
 
+    # RFC 6352, section 10.5.1: the "test" attribute says how the text-match
+    # and param-filter children combine; it defaults to "anyof".
+    test = {"allof": all, "anyof": any}[el.get("test", "anyof")]
+
+    def apply_child(subel, prop_el):
+        if subel.tag == "{urn:ietf:params:xml:ns:carddav}text-match":
+            return apply_text_match(subel, _property_text(prop_el))
+        else:
+            return apply_param_filter(subel, prop_el)
+
+    subels = [
+        subel
+        for subel in el
+        if subel.tag
+        in (
+            "{urn:ietf:params:xml:ns:carddav}text-match",
+            "{urn:ietf:params:xml:ns:carddav}param-filter",
+        )
+    ]
     for prop_el in prop:
-        matched = True
-        for subel in el:
-            if subel.tag == "{urn:ietf:params:xml:ns:carddav}text-match":
-                if not apply_text_match(subel, _property_text(prop_el)):
-                    matched = False
-                    break
-            elif subel.tag == "{urn:ietf:params:xml:ns:carddav}param-filter":
-                if not apply_param_filter(subel, prop_el):
-                    matched = False
-                    break
-        if matched:
+        if not subels or test(apply_child(subel, prop_el) for subel in subels):
             return True
     return False
 
